@@ -71,6 +71,9 @@ CHECKS = {
 "C32": ("exploration", "deterministic simulation: seeded Read/Write histories (types, index ranges, attribute ids) from two sessions while an application actor flips access levels; register reference model",
         "Oracle: Good write => user access level allows it and type compatible; Good write observed by next Read (ranges modelled for 1-D arrays, ASCII strings, byte strings); rejected write changes nothing; every request returns a status, no panic.",
         "Non-ASCII strings and multi-dimensional ranges: only no-panic and unchanged-on-reject.", "7/C32"),
+"C33": ("exploration", "deterministic simulation (swarm): structure-aware random requests of every session-bound service plus ActivateSession with crafted tokens, interleaved with timer ticks and raised events, against the real server tasks; crash / liveness oracle with process isolation",
+        "Oracle: every request is answered by a response or ServiceFault, no server task panics (panic hook), the worker process survives (stack overflow / abort detection, watchdog) and a trailing Read still succeeds.",
+        "Requests are structurally valid (typed structures through the real encoder); 12% of runs use a signed channel so sessions have a real nonce.", "7/C33"),
 }
 
 def main():
